@@ -125,6 +125,23 @@ Theorem cmdline_strict_option : forall c g,
 Proof. exact Proofs.Errors.cmdline_strict_option. Qed.
 Print Assumptions cmdline_strict_option.
 
+(* growth: the errors Scanner.required raises (PrematureEOF, TokenRequired) on ANY text are
+   well-formed and therefore render -- in particular lines[error_lineno0] never raises IndexError:
+   the line number the scanner counts (\n, \r, \r\n in the skipped whitespace) always points into
+   text.splitlines(True), although splitlines also breaks at \v \f \x1c-\x1e \x85 U+2028 U+2029 *)
+Theorem scanner_errors_render : forall text lit fn id e p,
+  fn <> FnBad -> scanner_required text lit fn id = inr e ->
+  exists s, format_error e p = Ok s /\ infix (p ++ err_str e) s /\ infix (e_msg e) s.
+Proof. exact Proofs.Errors.scanner_errors_render. Qed.
+Print Assumptions scanner_errors_render.
+
+(* growth: a LowLevelParser error whose command start lies before the error position, both
+   inside the text, is well-formed *)
+Theorem bib_ctx_wellformed : forall (text : str) (start pos : Z),
+  (0 <= start < pos)%Z -> (pos <= Z.of_nat (length text))%Z -> wf_ctx (CBib text (Some start) pos).
+Proof. exact Proofs.Errors.bib_ctx_wellformed. Qed.
+Print Assumptions bib_ctx_wellformed.
+
 (* ---- non-vacuity ---- *)
 Definition ex_aux : err :=
   mkErr 1 (s2l "illegal, another \bibstyle command") (FnStr (s2l "x.aux")) (SAux (Some 3%Z)) (CAux (Some (s2l "\bibstyle{b}"))).
@@ -162,3 +179,9 @@ Example cmdline_example :
   snd (cmdline_call init_G false (Report ex_aux Done)) = Ok 2%Z /\
   snd (cmdline_call init_G false Done) = Ok 0%Z.
 Proof. vm_compute. auto. Qed.
+
+Example scanner_example :
+  exists e, scanner_required ([12%N; 13%N; 10%N; 133%N] ++ s2l " y") (s2l "x") (FnStr (s2l "f.bst")) 7 = inr e
+  /\ e_ctx e = CScan ([12%N; 13%N; 10%N; 133%N] ++ s2l " y") (Some 2%Z) 5%Z
+  /\ format_error e (s2l "ERROR: ") = Ok ([102; 46; 98; 115; 116; 58; 32; 10; 102; 46; 98; 115; 116; 58; 32]%N ++ s2l "   ^^^" ++ [10%N] ++ s2l "f.bst: ERROR: syntax error in line 2: 'x' expected").
+Proof. eexists. split; [vm_compute; reflexivity|]. split; vm_compute; reflexivity. Qed.
